@@ -1,3 +1,169 @@
-(* placeholder until DistSolveProofs.v is ready *)
-From Amgcl Require Import Scalar Vec Crs Kernels Dist DistSolve.
-Theorem C12_placeholder : True. Proof. exact I. Qed.
+(* Properties_C12.v -- C12: the distributed solve is truthful and rank-consistent for any rank
+   count.  Statements only; proofs live in DistSolveProofs.v (+ DistProofs.v, KrylovProofs.v).
+
+   Model (DistSolve.v): every rank of a world runs its own copy of the CG of
+   amgcl/solver/cg.hpp (the serial model is Krylov.cg, the object of C01/C05) on its slices of
+   the vectors, with its PRIVATE copies of all scalars (rho, alpha, residual norm, iteration
+   counter, eps, norm_rhs).  The ranks are coupled only through the distributed operator,
+   the distributed preconditioner and mpi::inner_product (local sum + MPI_Allreduce, which
+   hands every rank its own copy of the result).  Every rank evaluates the loop condition
+   and the prologue branch on its own copies; if the ranks disagreed, some would enter a
+   collective the others never call -- the model then returns None.
+
+   A world vector has shape [parts] (one slice per rank, slice r of length parts_r, zero
+   allowed).  The distributed operator [Aw] and preconditioner [Pw] enter through what
+   C11-A1 proves for the distributed matrix: on world vectors of the right shape they act
+   as the serial [Aser]/[Pser] act on the assembled vector.
+
+   TRUSTED, NOT PROVED: the MPI runtime realises the collective model (progress, no
+   deadlock, arrival order); the distributed preconditioners of amgcl (AMG with PMIS
+   aggregation, repartitioning, consolidated coarse solve; block relaxations) are NOT
+   modelled -- they enter as [Pw] with the assumption HP, and are covered by the oracle
+   runs of bin/check C12 only.  Other Krylov methods: rank-consistency oracle only. *)
+From Amgcl Require Import Scalar QcInst Vec Crs Kernels KernelsProofs MatOps Dist DistProofs Krylov KrylovProofs
+                          DistSolve DistSolveProofs.
+From Coq Require Import QArith_base Qcanon.
+Local Close Scope Q_scope.
+Local Close Scope Qc_scope.
+Local Open Scope nat_scope.
+
+Section Ring.
+Variable S : Scalar.
+Hypothesis Srt : Sring S.
+Hypothesis Seqb : seqb_spec S.
+
+(* C12-A1: for every rank count >= 1 and every partition (empty ranks included), the rank-lifted
+   CG never gets stuck (all ranks take the same branch of the prologue and leave the loop in
+   the same iteration), every rank reports the SAME iteration count and residual -- those of
+   the serial CG on the assembled system with the assembled preconditioner -- and the ranks'
+   slices of x assemble to the serial solution. *)
+Theorem C12_rank_lifted_cg (parts : list nat) (Aw Pw : list (vec S) -> list (vec S)) (Aser Pser : vec S -> vec S)
+        prm (Fs Xs0 : list (vec S)) (junk : wcg) (sjunk : cg_ws) :
+  0 < length parts ->
+  (forall Xs, shape parts Xs -> shape parts (Aw Xs) /\ concat (Aw Xs) = Aser (concat Xs)) ->
+  (forall Xs, shape parts Xs -> shape parts (Pw Xs) /\ concat (Pw Xs) = Pser (concat Xs)) ->
+  shape parts Fs -> shape parts Xs0 ->
+  shape parts (w_s junk) -> shape parts (w_p junk) -> shape parts (w_q junk) ->
+  concat (w_s junk) = cg_s sjunk -> concat (w_p junk) = cg_p sjunk -> concat (w_q junk) = cg_q sjunk ->
+  exists r res,
+    fst (cg Aser Pser prm (concat Fs) (concat Xs0) sjunk) = KOk r /\
+    wcg_run Aw Pw prm Fs Xs0 junk = Some res /\
+    map (@k_it S) res = repeat (k_it r) (length parts) /\
+    map (@k_res S) res = repeat (k_res r) (length parts) /\
+    shape parts (map (@k_x S) res) /\
+    concat (map (@k_x S) res) = k_x r.
+Proof.
+  intros Hn HA HP. exact (wcg_run_spec Srt parts Hn Aw Pw Aser Pser HA HP prm Fs Xs0 junk sjunk).
+Qed.
+
+(* the distributed matrix of C11 satisfies the operator hypothesis, for every partition *)
+Theorem C12_distributed_matrix_is_world_operator (A : crs S) (parts : list nat) :
+  wf A = true -> psum parts = nrows A -> psum parts = ncols A ->
+  forall Xs, shape parts Xs ->
+    shape parts (dist_op A parts Xs) /\ concat (dist_op A parts Xs) = serial_op A (concat Xs).
+Proof. exact (dist_op_is_world_op Srt Seqb A parts). Qed.
+
+(* C12-A1 + A2 for the distributed matrix: with mpi::distributed_matrix as operator, on every
+   rank the reported (iters, residual) are those of the serial CG on the assembled matrix, and
+   the reported residual is the TRUE relative residual of the assembled solution
+   (true_res = || f - A x ||, from C01-A1 cg_residual_truthful and C11-A1). *)
+Theorem C12_distributed_cg_truthful (A : crs S) (parts : list nat)
+        (Pw : list (vec S) -> list (vec S)) (Pser : vec S -> vec S)
+        prm (Fs Xs0 : list (vec S)) (junk : wcg) (sjunk : cg_ws) nr :
+  0 < length parts ->
+  wf A = true -> psum parts = nrows A -> ncols A = nrows A ->
+  (forall Xs, shape parts Xs -> shape parts (Pw Xs) /\ concat (Pw Xs) = Pser (concat Xs)) ->
+  (forall v, length v = nrows A -> length (Pser v) = nrows A) ->
+  shape parts Fs -> shape parts Xs0 ->
+  shape parts (w_s junk) -> shape parts (w_p junk) -> shape parts (w_q junk) ->
+  concat (w_s junk) = cg_s sjunk -> concat (w_p junk) = cg_p sjunk -> concat (w_q junk) = cg_q sjunk ->
+  k_prologue norm_a prm (concat Fs) = Go nr ->
+  exists res,
+    wcg_run (dist_op A parts) Pw prm Fs Xs0 junk = Some res /\
+    length res = length parts /\
+    forall k, In k res ->
+      k_res k = (true_res norm_a (serial_op A) Pser false (concat Fs) (concat (map (@k_x S) res)) / nr)%S /\
+      k_it k <= p_maxiter prm.
+Proof.
+  intros Hn Hwf Hr Hc HP HPlen SF SX Ss Sp Sq Cs Cp Cq Hpro.
+  assert (Hc' : psum parts = ncols A) by congruence.
+  destruct (wcg_run_spec Srt parts Hn (dist_op A parts) Pw (serial_op A) Pser
+              (dist_op_is_world_op Srt Seqb A parts Hwf Hr Hc') HP prm Fs Xs0 junk sjunk
+              SF SX Ss Sp Sq Cs Cp Cq) as [r [res [Hcg [Hrun [Hit [Hres [Hsh Hx]]]]]]].
+  exists res. split; [exact Hrun|].
+  assert (Hlen : length res = length parts).
+  { rewrite <- (map_length (@k_it S) res), Hit. apply repeat_length. }
+  split; [exact Hlen|].
+  assert (Lf : length (concat Fs) = nrows A).
+  { rewrite <- Hr. clear -SF. unfold shape in SF. subst parts. induction Fs as [|x Xs IH]; simpl; [reflexivity|].
+    rewrite app_length, IH. reflexivity. }
+  assert (Lx : length (concat Xs0) = nrows A).
+  { rewrite <- Hr. clear -SX. unfold shape in SX. subst parts. induction Xs0 as [|x Xs IH]; simpl; [reflexivity|].
+    rewrite app_length, IH. reflexivity. }
+  destruct (cg (serial_op A) Pser prm (concat Fs) (concat Xs0) sjunk) as [o w] eqn:Ecg. simpl in Hcg. subst o.
+  destruct (cg_residual_truthful Srt Seqb (nrows A) (serial_op A) Pser
+              (fun v _ => mat_op_len A v) HPlen (mat_op_linear Srt Seqb A Hwf Hc)
+              prm (concat Fs) (concat Xs0) sjunk nr r w Lf Lx Hpro Ecg) as [Htrue _].
+  pose proof (cg_iters_le_maxiter (serial_op A) Pser prm (concat Fs) (concat Xs0) sjunk r w Ecg) as Hle.
+  intros k Hk.
+  assert (Hk1 : k_res k = k_res r).
+  { pose proof (in_map (@k_res S) res k Hk) as H1. rewrite Hres in H1. apply repeat_spec in H1. exact H1. }
+  assert (Hk2 : k_it k = k_it r).
+  { pose proof (in_map (@k_it S) res k Hk) as H1. rewrite Hit in H1. apply repeat_spec in H1. exact H1. }
+  rewrite Hk1, Hk2, Hx. split; [exact Htrue | exact (proj1 Hle)].
+Qed.
+End Ring.
+Print Assumptions C12_rank_lifted_cg.
+Print Assumptions C12_distributed_cg_truthful.
+
+(* closed instance at the exact rationals *)
+Theorem C12_rank_lifted_cg_Qc (parts : list nat) (Aw Pw : list (vec QcS) -> list (vec QcS)) (Aser Pser : vec QcS -> vec QcS)
+        prm (Fs Xs0 : list (vec QcS)) (junk : wcg) (sjunk : cg_ws) :
+  0 < length parts ->
+  (forall Xs, shape parts Xs -> shape parts (Aw Xs) /\ concat (Aw Xs) = Aser (concat Xs)) ->
+  (forall Xs, shape parts Xs -> shape parts (Pw Xs) /\ concat (Pw Xs) = Pser (concat Xs)) ->
+  shape parts Fs -> shape parts Xs0 ->
+  shape parts (w_s junk) -> shape parts (w_p junk) -> shape parts (w_q junk) ->
+  concat (w_s junk) = cg_s sjunk -> concat (w_p junk) = cg_p sjunk -> concat (w_q junk) = cg_q sjunk ->
+  exists r res,
+    fst (cg Aser Pser prm (concat Fs) (concat Xs0) sjunk) = KOk r /\
+    wcg_run Aw Pw prm Fs Xs0 junk = Some res /\
+    map (@k_it QcS) res = repeat (k_it r) (length parts) /\
+    map (@k_res QcS) res = repeat (k_res r) (length parts) /\
+    shape parts (map (@k_x QcS) res) /\
+    concat (map (@k_x QcS) res) = k_x r.
+Proof. exact (C12_rank_lifted_cg QcS QcS_ring parts Aw Pw Aser Pser prm Fs Xs0 junk sjunk). Qed.
+Print Assumptions C12_rank_lifted_cg_Qc.
+
+Theorem C12_distributed_matrix_is_world_operator_Qc (A : crs QcS) (parts : list nat) :
+  wf A = true -> psum parts = nrows A -> psum parts = ncols A ->
+  forall Xs, shape parts Xs ->
+    shape parts (dist_op A parts Xs) /\ concat (dist_op A parts Xs) = serial_op A (concat Xs).
+Proof. exact (C12_distributed_matrix_is_world_operator QcS QcS_ring QcS_eqb A parts). Qed.
+Print Assumptions C12_distributed_matrix_is_world_operator_Qc.
+
+(* non-vacuity: a 3-rank world with an empty rank, a distributed Jacobi preconditioner (a
+   rank-local diagonal scaling satisfies HP), two CG iterations: the rank-lifted run exists,
+   all ranks report the serial (iters, residual), the slices assemble to the serial x *)
+(* values are compared through their canonical fractions (the canonicity proofs inside Qc are irrelevant) *)
+Definition qval (q : QcS) : QArith_base.Q := Qcanon.this q.
+Definition ex_A : crs QcS := mkCrs 4 [[(0, qc 2 1); (1, qc (-1) 1)]; [(0, qc (-1) 1); (1, qc 2 1); (2, qc (-1) 1)];
+                                      [(1, qc (-1) 1); (2, qc 2 1); (3, qc (-1) 1)]; [(2, qc (-1) 1); (3, qc 2 1)]].
+Definition ex_parts := [2; 0; 2].
+Definition ex_Pw (Xs : list (vec QcS)) : list (vec QcS) := map (map (fun v => (qc 1 2 * v)%S)) Xs.
+Definition ex_Pser (x : vec QcS) : vec QcS := map (fun v => (qc 1 2 * v)%S) x.
+Definition ex_prm : @kprm QcS := mkPrm 2 (qc 1 1000000) (qc 0 1) false false 30 false (qc 1 1).
+Definition ex_junk : @wcg QcS := mkWcg [] [] [[qc 0 1; qc 0 1]; []; [qc 0 1; qc 0 1]] [[qc 0 1; qc 0 1]; []; [qc 0 1; qc 0 1]]
+                                       [[qc 0 1; qc 0 1]; []; [qc 0 1; qc 0 1]] [] [] [] [].
+Example C12_nonvacuous :
+  let Fs := [[qc 1 1; qc 0 1]; []; [qc 0 1; qc 1 1]] in
+  let Xs0 := [[qc 0 1; qc 0 1]; []; [qc 0 1; qc 0 1]] in
+  match wcg_run (dist_op ex_A ex_parts) ex_Pw ex_prm Fs Xs0 ex_junk,
+        fst (cg (serial_op ex_A) ex_Pser ex_prm (concat Fs) (concat Xs0) (mkCgWs [] [] [] [])) with
+  | Some res, KOk r => map (@k_it QcS) res = [k_it r; k_it r; k_it r] /\ k_it r = 2 /\
+                       map qval (concat (map (@k_x QcS) res)) = map qval (k_x r) /\
+                       map qval (k_x r) = [(1 # 1)%Q; (1 # 1)%Q; (1 # 1)%Q; (1 # 1)%Q] /\
+                       map qval (map (@k_res QcS) res) = [(0 # 1)%Q; (0 # 1)%Q; (0 # 1)%Q]
+  | _, _ => False
+  end.
+Proof. vm_compute. repeat split; reflexivity. Qed.
